@@ -14,7 +14,7 @@ func init() {
 	register(&Prop{
 		ID:         "C18",
 		Title:      "Table lifecycle and metadata stay coherent",
-		Decided:    "(R1) CreateTable: the existence test on tables[name] dominates the insertion and its hit edge returns a resource-in-use error; the insertion lies on the success edges of CreatePrimaryIndex, AddGlobalIndexes and AddLocalIndexes (no half-built table is published), stores the table returned by core.NewTable under the request's table name; (R2) Client.tables is read only by comma-ok lookups whose miss edge returns a resource-not-found error (or by iteration), and written only by the constructor, CreateTable and DeleteTable; (R3) NewTable, newIndex and NewClient initialise every map/slice field with a fresh container, so a re-created table shares nothing with its predecessor; (R4) Description reports ItemCount ← len(SortedKeys), the key schema of the table and one entry per index with an exhaustive switch over the index kinds, and both clients carry TableName, ItemCount, KeySchema and both index lists into the SDK description; (R5) DeleteTable deletes exactly the looked-up name after a successful lookup; (R6) no instruction outside package initialisation stores through a package-level variable of the six packages, and no address into a package-level singleton object escapes – separate clients share no mutable state; (R7) every core call in a data method operates on the table returned by the lookup of the request's own TableName; (R8) hygiene that keeps the call graph sound: no unsafe, cgo, go:linkname, reflective call or build-tagged file; (R11) tables, indexes and the catalogue have no state beyond the confirmed fields: cached metadata added later must be rewritten by every writer of what it describes; (R12) no engine-internal error class escapes an exported v2 entry point (= C17.R9); (R13) a new index is back-filled through its own mutator (= C03.R6).",
+		Decided:    "(R1) CreateTable: the existence test on tables[name] dominates the insertion and its hit edge returns a resource-in-use error; the insertion lies on the success edges of CreatePrimaryIndex, AddGlobalIndexes and AddLocalIndexes (no half-built table is published), stores the table returned by core.NewTable under the request's table name; (R2) Client.tables is read only by comma-ok lookups whose miss edge returns a resource-not-found error (or by iteration), and written only by the constructor, CreateTable and DeleteTable; (R3) NewTable, newIndex and NewClient initialise every map/slice field with a fresh container, so a re-created table shares nothing with its predecessor; (R4) Description reports ItemCount ← len(SortedKeys), the key schema of the table and one entry per index with an exhaustive switch over the index kinds, and both clients carry TableName, ItemCount, KeySchema and both index lists into the SDK description; (R5) DeleteTable deletes exactly the looked-up name after a successful lookup; (R6) no instruction outside package initialisation stores through a package-level variable of the six packages, and no address into a package-level singleton object escapes – separate clients share no mutable state; (R7) every core call in a data method operates on the table returned by the lookup of the request's own TableName; (R8) hygiene that keeps the call graph sound: no unsafe, cgo, go:linkname, reflective call or build-tagged file; (R11) tables, indexes and the catalogue have no state beyond the confirmed fields: cached metadata added later must be rewritten by every writer of what it describes; (R12) no engine-internal error class escapes an exported v2 entry point (= C17.R9); (R13) a new index is back-filled through its own mutator (= C03.R6); (R14) the reported item count is len(SortedKeys), kept equal to the key set of Data by every mutator on every path (= C01.R2).",
 		NotDecided: "sequencing semantics across arbitrary histories beyond the induction over per-method invariants; billing-mode/throughput validation values.",
 		Rules: []RuleDef{
 			{ID: "R1", Desc: "CreateTable: exists-test dominates insertion; only fully built tables are published (T-DOM)", Run: c18R1},
@@ -36,6 +36,7 @@ func init() {
 			{ID: "R11", Desc: "table and catalogue state is the confirmed set of fields: a cached description or catalogue memo must be rewritten by every writer of what it describes (T-FIELD closure)", Run: func(e *Engine) { stateModelClosed(e, "R11", func(k string) bool { return k == "core.Table" || k == "core.index" || k == "v1.Client" || k == "v2.Client" }) }},
 			{ID: "R12", Desc: "operating on a table that does not exist fails with the SDK's resource-not-found error in every exported v2 entry point, helpers like ClearTable included: no engine-internal error escapes unmapped (= C17.R9)", Run: aliasRule("R12", c17R9, nil)},
 			{ID: "R13", Desc: "an index created on a non-empty table is filled through the index's own mutator (= C03.R6): items without the index key stay out, the per-index item count is the number of items that have it", Run: aliasRule("R13", c03R6, nil)},
+			{ID: "R14", Desc: "DescribeTable reports the current number of items: the count is the length of SortedKeys, which every mutator keeps equal to the key set of Data on every path (= C01.R2) – a delete of an absent key that drops a neighbour's entry makes the count drift", Run: aliasRule("R14", c01R2, nil)},
 		},
 	})
 }
